@@ -542,6 +542,6 @@ FAMILIES = [
     Family("reference-derivatives", ref_derivatives, _n_ref, _n_ref, budget={"quick": 40, "thorough": 200}),
     Family("nodal-pou", nodal_pou, _n_nodal, lambda c: 8 * _n_nodal(c)),
     Family("mapped-derivatives", mapped_derivatives, _n_mapped, _n_mapped, budget={"quick": 90, "thorough": 900}),
-    Family("duality", duality, 14, 560),
+    Family("duality", duality, 42, 840),
     Family("global-dofs", global_dofs, 22, 330),
 ]
